@@ -55,6 +55,8 @@ package gpurequesthandler
 //@     invariant len(containers) == len(pod.Spec.Containers) + len(pod.Spec.InitContainers)
 //@     invariant forall j int :: 0 <= j && j < len(containers) ==> (constants.NvidiaGpuResource in containers[j].Resources.Limits) == gpuLimitAt(pod, j)
 //@     invariant forall j int :: 0 <= j && j <= rangeindex ==> !gpuLimitAt(pod, j)
+//@     # ground instance of invariant 3 for the element the next iteration looks at (hint for [found])
+//@     invariant rangeindex + 1 < len(containers) ==> (constants.NvidiaGpuResource in containers[rangeindex + 1].Resources.Limits) == gpuLimitAt(pod, rangeindex + 1)
 //@     decreases len(containers) - rangeindex
 //@   ensures [found] result != nil ==> hasWholeGpuLimit(pod)
 //@   ensures [none] result == nil ==> !hasWholeGpuLimit(pod)
